@@ -209,7 +209,11 @@ def make_numpy():
     m.vstack = lambda xs: T.cat([x if x.ndim > 1 else x.reshape(1, -1) for x in xs], axis=0, cls=NDArray)
     m.where = lambda c, a=None, b=None: T.where(c, a, b, cls=NDArray)
     m.nonzero = lambda x: x.nonzero()
-    m.unique = T.unique
+    def np_unique(x, *a, **k):
+        if isinstance(x, StrArray) or (isinstance(x, (list, tuple)) and x and builtins.all(isinstance(v, str) for v in x)):
+            return StrArray(sorted(set(x.items if isinstance(x, StrArray) else x)))
+        return T.unique(x, *a, **k)
+    m.unique = np_unique
     _nd = lambda x: x if isinstance(x, Arr) else NDArray(_obj(x))
     m.sum = lambda x, axis=None, **k: _nd(x).sum(axis=axis)
     m.cumsum = lambda x, axis=None, dtype=None: _nd(x).cumsum(axis=axis)
@@ -297,6 +301,9 @@ class StrArray:
 
     def __iter__(self):
         return iter(self.items)
+
+    def tolist(self):
+        return list(self.items)
 
 
 # ----------------------------------------------------------------------------- torch facade
@@ -605,12 +612,55 @@ def make_pandas():
     return m
 
 
+FASTA_REGISTRY = {}      # path -> list of (record name, sequence str / SymStr), in file order
+
+
+class _FastaSeq:
+    def __init__(self, seq):
+        self.seq = seq
+
+    def __len__(self):
+        return len(self.seq)
+
+
+class _FastaRecord:
+    def __init__(self, name, seq):
+        self.name, self._seq = name, seq
+
+    def __getitem__(self, k):
+        return _FastaSeq(self._seq[k] if not (isinstance(k, slice) and k == slice(None)) else self._seq)
+
+    def __len__(self):
+        return len(self._seq)
+
+
 def make_pyfaidx():
     m = types.ModuleType("pyfaidx")
 
     class Fasta:
-        def __init__(self, *a, **k):
-            raise Inconclusive("pyfaidx.Fasta is not modelled (files are outside the claim)")
+        """in-memory model of an indexed FASTA: records in FILE order (like pyfaidx); contents may be symbolic strings"""
+        def __init__(self, path, *a, **k):
+            if path not in FASTA_REGISTRY:
+                raise Inconclusive("pyfaidx.Fasta(%r): file contents are outside the claim" % (path,))
+            self._recs = [(n, _FastaRecord(n, s_)) for n, s_ in FASTA_REGISTRY[path]]
+
+        def keys(self):
+            return [n for n, _ in self._recs]
+
+        def items(self):
+            return list(self._recs)
+
+        def __getitem__(self, name):
+            return dict(self._recs)[name]
+
+        def close(self):
+            pass
+
+        def __enter__(self):
+            return self
+
+        def __exit__(self, *a):
+            return False
     m.Fasta = Fasta
     return m
 
